@@ -3,6 +3,8 @@ package checks
 import (
 	"fmt"
 	"math"
+	"regexp"
+	"strconv"
 	"strings"
 	"time"
 
@@ -14,6 +16,8 @@ import (
 // C07 — variant conversions deliver the requested type and round-trip losslessly.
 
 func init() { mon.Register("C07", buildC07) }
+
+var reDecimal = regexp.MustCompile(`^[+-]?[0-9]{1,18}$`)
 
 func manager(name string) variants.IVariantOperations {
 	if name == "safe" {
@@ -133,6 +137,13 @@ func c07Exec(c *mon.Case) {
 	if got.T != T {
 		c.Failf(mgr+" Convert succeeds with a value of another type than requested", "%s -> %s", desc, got)
 		return
+	}
+	// a string of decimal digits denotes its decimal value
+	if v.T == "S" && (T == "I" || T == "L") && reDecimal.MatchString(v.V) {
+		if n, perr := strconv.ParseInt(v.V, 10, 64); perr == nil && got.Long() != n {
+			c.Failf("a decimal integer string is not converted to the number it spells", "%s -> %s, expected %d", desc, got, n)
+			return
+		}
 	}
 	// numeric widenings have an exact meaning in the host language
 	wide := map[string]Val{}
